@@ -40,6 +40,8 @@
 (*   "reverse"   output[i] built from tasks[n-1-i]                         *)
 (*   "sharedidx" the stream convert closure uses the shared loop variable  *)
 (*   "dropempty" the stream convert function skips empty frames            *)
+(*   "concatinplace" the concatenation of message lists writes its result  *)
+(*               into the first frame instead of a fresh list              *)
 (*   "noinlinewait" the result is assembled without waiting for the        *)
 (*               goroutines (wg.Wait dropped)                              *)
 (***************************************************************************)
@@ -55,6 +57,8 @@ CONSTANTS MaxCalls,     \* 1..4
           MaxChunks,    \* 1..2
           AllowUnknown, \* BOOLEAN
           MaxFaulty,    \* at most this many tools with beh # ok
+          Consumers,    \* 1 | 2: how many consumers concatenate the streamed output (2: a branch condition / callback handler / second
+                        \* successor gets a copy of the stream; copies share the frames)
           Eager,        \* TRUE: generation mode (no gratuitous interleavings of ungated steps)
           Bug
 
@@ -64,8 +68,8 @@ Ids == <<"k1", "k2", "k3", "k4">>
 Args == <<"a1", "a2", "a3", "a4">>
 Decoy == [name |-> "t0", kind |-> "inv", beh |-> "ok", chunks |-> 1]
 
-VARIABLES pc, sc, spawned, ts, S, sched
-vars == <<pc, sc, spawned, ts, S, sched>>
+VARIABLES pc, sc, spawned, ts, S, sched, frames      \* frames: the elements of the output stream received so far, <<[i, c]>>
+vars == <<pc, sc, spawned, ts, S, sched, frames>>
 
 N == Len(sc.calls)
 PoolIdx(nm) == CHOOSE j \in 1..3 : Pool[j] = nm
@@ -75,7 +79,7 @@ NewTask == [step |-> 0, done |-> FALSE, err |-> "", output |-> "", avail |-> <<>
 
 Init == /\ pc = "calls"
         /\ sc \in [mode : Modes, graph : Graphs, handler : {"none"}, calls : {<<>>}, tools : {<<Decoy>>}]
-        /\ spawned = 0 /\ ts = <<>> /\ S = Idle /\ sched = <<>>
+        /\ spawned = 0 /\ ts = <<>> /\ S = Idle /\ sched = <<>> /\ frames = <<>>
 
 --------------------------------------------------------------------------------
 (* setup *)
@@ -84,9 +88,9 @@ AddCall(nm) ==
   /\ \/ nm = Unknown /\ AllowUnknown
      \/ \E j \in 1..3 : nm = Pool[j] /\ j <= MaxTools /\ j <= UsedCount + 1
   /\ sc' = [sc EXCEPT !.calls = Append(@, [id |-> Ids[N + 1], name |-> nm, args |-> Args[N + 1]])]
-  /\ UNCHANGED <<pc, spawned, ts, S, sched>>
+  /\ UNCHANGED <<pc, spawned, ts, S, sched, frames>>
 
-ToTools == /\ pc = "calls" /\ N >= 1 /\ pc' = "tools" /\ UNCHANGED <<sc, spawned, ts, S, sched>>
+ToTools == /\ pc = "calls" /\ N >= 1 /\ pc' = "tools" /\ UNCHANGED <<sc, spawned, ts, S, sched, frames>>
 
 Faulty == Cardinality({j \in 1..Len(sc.tools) : sc.tools[j].beh \notin {"ok", "empty"}})
 \* attributes that cannot matter are fixed: chunks only for a tool that streams in this mode, failmid likewise
@@ -99,7 +103,7 @@ AddTool(k, b, ch) ==
   /\ (b \in {"fail", "panic"} => ch = 1)
   /\ (b = "failmid" => ch = MaxChunks)
   /\ sc' = [sc EXCEPT !.tools = Append(@, [name |-> Pool[Len(sc.tools)], kind |-> k, beh |-> b, chunks |-> ch])]
-  /\ UNCHANGED <<pc, spawned, ts, S, sched>>
+  /\ UNCHANGED <<pc, spawned, ts, S, sched, frames>>
 
 CaseEv == [ev |-> "case", id |-> "model", mode |-> sc.mode, graph |-> sc.graph, handler |-> sc.handler, calls |-> sc.calls, tools |-> sc.tools]
 Start(h) ==
@@ -109,7 +113,7 @@ Start(h) ==
   /\ pc' = "gen"
   /\ ts' = [i \in 1..N |-> NewTask]
   /\ S' = Apply(Idle, [ev |-> "case", id |-> "model", mode |-> sc.mode, graph |-> sc.graph, handler |-> h, calls |-> sc.calls, tools |-> sc.tools])
-  /\ UNCHANGED <<spawned, sched>>
+  /\ UNCHANGED <<spawned, sched, frames>>
 
 --------------------------------------------------------------------------------
 (* the tools as the harness implements them *)
@@ -143,12 +147,12 @@ GenTasks ==
   /\ IF Unhandled(S.c)
      THEN /\ S' = Finish2(S, [ev |-> "error", errs |-> <<>>, panic |-> FALSE]) /\ pc' = "done" /\ UNCHANGED spawned
      ELSE /\ pc' = (IF N = 1 THEN "inline" ELSE "spawn") /\ spawned' = 1 /\ UNCHANGED S
-  /\ UNCHANGED <<sc, ts, sched>>
+  /\ UNCHANGED <<sc, ts, sched, frames>>
 
 Spawn == /\ pc = "spawn"
          /\ spawned' = spawned + 1
          /\ pc' = (IF spawned + 1 = N THEN "inline" ELSE "spawn")
-         /\ UNCHANGED <<sc, ts, S, sched>>
+         /\ UNCHANGED <<sc, ts, S, sched, frames>>
 
 Running == pc \in {"spawn", "inline", "wait"}
 CanRun(i) == IF i = 1 THEN pc = "inline" ELSE (Running /\ i <= spawned /\ (Eager => pc \in {"inline", "wait"}))
@@ -177,7 +181,7 @@ Ret(i) ==
             /\ S' = Apply(S, TEnd(i, IF b = "ok" THEN "ok" ELSE "errmid", IF b = "ok" THEN FullOut(i) ELSE ""))
             \* Stream: the task is complete when the reader is returned; Invoke (invokeByStream): it goes on reading
             /\ ts' = [ts EXCEPT ![i].step = 1, ![i].done = (sc.mode = "stream")] /\ UNCHANGED pc
-  /\ UNCHANGED <<sc, spawned>>
+  /\ UNCHANGED <<sc, spawned, frames>>
 
 \* later steps of a streaming tool: its producer sends chunk k (the last one also closes), or the error item
 Item(i, k) == IF Beh(i) = "failmid" /\ k = 2 THEN "ERR" ELSE ChunkSeq(i)[k]
@@ -193,13 +197,13 @@ Send(i) ==
                    ELSE [ts EXCEPT ![i].step = k + 1, ![i].output = @ \o Item(i, k), ![i].done = last]
      ELSE /\ pc = "consume" /\ (Eager => NoPending)
           /\ ts' = [ts EXCEPT ![i].step = k + 1, ![i].avail = Append(@, Item(i, k)), ![i].eof = last]
-  /\ UNCHANGED <<pc, sc, spawned, S>>
+  /\ UNCHANGED <<pc, sc, spawned, S, frames>>
 
 InlineDone == /\ pc = "inline" /\ ts[1].done
               /\ pc' = (IF N = 1 \/ Bug = "noinlinewait" THEN "asm" ELSE "wait")
-              /\ UNCHANGED <<sc, spawned, ts, S, sched>>
+              /\ UNCHANGED <<sc, spawned, ts, S, sched, frames>>
 WaitDone == /\ pc = "wait" /\ \A i \in 2..N : ts[i].done
-            /\ pc' = "asm" /\ UNCHANGED <<sc, spawned, ts, S, sched>>
+            /\ pc' = "asm" /\ UNCHANGED <<sc, spawned, ts, S, sched, frames>>
 
 Src(i) == IF Bug = "reverse" THEN N + 1 - i ELSE i
 ErrEv(i) == [ev |-> "error", errs |-> (IF ts[i].err = "err" THEN ErrOf(i) ELSE <<>>), panic |-> (ts[i].err = "panic")]
@@ -216,31 +220,42 @@ Assemble ==
      ELSE \* Stream: tasks whose packer is streamByInvoke hold a one-element array reader
           /\ ts' = [i \in 1..N |-> IF Form(i) = "i" THEN [ts[i] EXCEPT !.avail = <<ts[i].output>>, !.eof = TRUE] ELSE ts[i]]
           /\ pc' = "consume" /\ UNCHANGED S
-  /\ UNCHANGED <<sc, spawned, sched>>
+  /\ UNCHANGED <<sc, spawned, sched, frames>>
 
 Recv(i) ==
   /\ pc = "consume" /\ ts[i].avail # <<>>
   /\ LET it == Head(ts[i].avail) IN
      IF it = "ERR"
-     THEN /\ S' = Finish2(S, [ev |-> "error", errs |-> ErrOf(i), panic |-> FALSE]) /\ pc' = "done" /\ UNCHANGED ts
+     THEN /\ S' = Finish2(S, [ev |-> "error", errs |-> ErrOf(i), panic |-> FALSE]) /\ pc' = "done" /\ UNCHANGED <<ts, frames>>
      ELSE IF Bug = "sharedidx"
      THEN \* ret[n] with the shared loop variable: index out of range, recovered into an error item of the stream
-          /\ S' = Finish2(S, [ev |-> "error", errs |-> <<>>, panic |-> TRUE]) /\ pc' = "done" /\ UNCHANGED ts
+          /\ S' = Finish2(S, [ev |-> "error", errs |-> <<>>, panic |-> TRUE]) /\ pc' = "done" /\ UNCHANGED <<ts, frames>>
      ELSE IF Bug = "dropempty" /\ it = ""
      THEN \* the convert function answers ErrNoValue for an empty frame: the frame is skipped
-          /\ ts' = [ts EXCEPT ![i].avail = Tail(@)] /\ UNCHANGED <<S, pc>>
+          /\ ts' = [ts EXCEPT ![i].avail = Tail(@)] /\ UNCHANGED <<S, pc, frames>>
      ELSE /\ S' = Apply(S, [ev |-> "chunk", n |-> N, items |-> <<[i |-> i, id |-> sc.calls[i].id, role |-> "tool", content |-> it]>>])
           /\ ts' = [ts EXCEPT ![i].avail = Tail(@), ![i].output = (IF Form(i) = "s" THEN @ \o it ELSE @), ![i].seen = TRUE]
+          /\ frames' = Append(frames, [i |-> i, c |-> it])
           /\ UNCHANGED pc
   /\ UNCHANGED <<sc, spawned, sched>>
 
-\* EOF of the merged stream; the library concatenation is position-wise (what the model accumulated in .output)
+\* EOF of the merged stream; the library concatenation is position-wise (schema/message.go:44-80): the first consumer's result
+\* is what the model accumulated in .output.  A second consumer concatenates its own copy of the stream, which shares the frames:
+\* with Bug = "concatinplace" the first concatenation wrote its result into the first frame (ret := mas[0]).
+ConcatOf(fs, p) == LET RECURSIVE F(_) F(k) == IF k > Len(fs) THEN "" ELSE (IF fs[k].i = p THEN fs[k].c ELSE "") \o F(k + 1) IN F(1)
+Second(p) == IF Bug = "concatinplace" /\ Len(frames) >= 2
+             THEN ts[p].output \o ConcatOf(Tail(frames), p)       \* frame 1 already holds the first result at every position
+             ELSE ConcatOf(frames, p)
+SeenBy(p) == \E k \in 1..Len(frames) : frames[k].i = p
 Finish ==
   /\ pc = "consume" /\ \A i \in 1..N : ts[i].eof /\ ts[i].avail = <<>>
-  /\ S' = Finish2(S, [ev |-> "result", out |-> [i \in 1..N |-> IF ts[i].seen THEN [id |-> sc.calls[i].id, role |-> "tool", content |-> ts[i].output, nil |-> FALSE]
-                                                                 ELSE [id |-> "", role |-> "", content |-> "", nil |-> TRUE]]])
+  /\ LET res == [ev |-> "result", out |-> [i \in 1..N |-> IF ts[i].seen THEN [id |-> sc.calls[i].id, role |-> "tool", content |-> ts[i].output, nil |-> FALSE]
+                                                          ELSE [id |-> "", role |-> "", content |-> "", nil |-> TRUE]]]
+         sn == [ev |-> "seen", who |-> "second", out |-> [i \in 1..N |-> IF SeenBy(i) THEN [id |-> sc.calls[i].id, role |-> "tool", content |-> Second(i), nil |-> FALSE]
+                                                                          ELSE [id |-> "", role |-> "", content |-> "", nil |-> TRUE]]] IN
+       S' = IF Consumers = 2 THEN Finish2(Apply(S, sn), res) ELSE Finish2(S, res)
   /\ pc' = "done"
-  /\ UNCHANGED <<sc, spawned, ts, sched>>
+  /\ UNCHANGED <<sc, spawned, ts, sched, frames>>
 
 \* terminal stuttering step (absent in generation mode, so that a simulated behaviour ends, and prints its CASE, once)
 Done == pc = "done" /\ ~Eager /\ UNCHANGED vars
